@@ -315,13 +315,14 @@ class ToCSV(object):
                 try:
                     rows = iterable_to_table(
                         rows_iter, row_separator=self._separator, header=self._header,
-                        row_end=self._row_end,
                     )
                 except TypeError:
                     pass
 
             if rows:
-                csv = "\n".join(rows) + self._last_row_end
+                # every row except the last one is ended with row_end
+                row_sep = self._row_end + "\n"
+                csv = row_sep.join(rows) + self._last_row_end
                 if (hasattr(data, "_update_context") and
                         callable(data._update_context)):
                     data._update_context(context)
